@@ -436,45 +436,93 @@ def strat_workflow(draw, tier):
 # ------------------------------------------------------------------ (c) tile_fits histories
 
 
+class Interrupted(Exception):
+    pass
+
+
 def exec_history(case):
+    """histories of tile_fits calls on ONE output directory. Steps: fresh / repeat / override / parallel2 /
+    interrupted (the run dies in the cascade, after the base layer was written and before index_rel.wtml);
+    the input image may change size between calls (the same path is re-written)."""
     import toasty
+    from toasty import builder as tbuilder
     from astropy.io import fits
     from .. import wcsgen
 
     old_env = os.environ.get("SLURM_NPROCS")
     os.environ["SLURM_NPROCS"] = "1"
     reuse = False
+    changed_input = False
     try:
         with fresh_dir("c17c-") as d:
-            w, h = case["size"]
-            data = (np.arange(w * h, dtype=np.float32).reshape(h, w) % 97) + 1
             fpath = os.path.join(d, "img.fits")
-            fits.writeto(fpath, data, header=wcsgen.header_of(case["wcs"], w, h))
             out = os.path.join(d, "out") if case["explicit_out"] else None
-            exists = False
             modes = case.get("modes") or [case["mode"]] * len(case["steps"])
+            sizes = case.get("sizes") or [case["size"]] * len(case["steps"])
+            content = None  # (mode, size) of the run that produced what is in the directory now
+            complete = False
             for si, step in enumerate(case["steps"]):
                 mode_i = modes[si] if out is not None else case["mode"]
+                w, h = sizes[si]
+                data = (np.arange(w * h, dtype=np.float32).reshape(h, w) % 97) + 1
+                fits.writeto(fpath, data, header=wcsgen.header_of(case["wcs"], w, h), overwrite=True)
                 kw = {"tiling_method": toasty.TilingMethod.TOAST, "start": case["start"]} if mode_i == "toast" else {"tiling_method": toasty.TilingMethod.TAN}
-                what = f"tile_fits ({mode_i}) call {si} ({step}) of history {list(zip(case['steps'], modes))}"
-                override = step == "override"
+                what = f"tile_fits ({mode_i}, {w}x{h}) call {si} ({step}) of history {list(zip(case['steps'], modes, [tuple(z) for z in sizes]))}"
+                override = step in ("override", "interrupted-override")
+                interrupted = step.startswith("interrupted")
                 par = 2 if step == "parallel2" else 1
-                with toasty_call("workflow", what):
+                will_tile = override or content is None
+                orig_cascade = tbuilder.Builder.cascade
+                if interrupted:
+                    def boom(self, **kw_):
+                        raise Interrupted("the run is interrupted in the cascade")
+
+                    tbuilder.Builder.cascade = boom
+                try:
                     with warnings.catch_warnings():
                         warnings.simplefilter("ignore")
                         odir, bld = toasty.tile_fits([fpath], out_dir=out, override=override, parallel=par, **kw)
-                if exists and not override:
+                except Interrupted:
+                    content = (mode_i, (w, h))
+                    complete = False
+                    continue
+                except Exception as e:  # noqa
+                    raise Violation("workflow", f"{what} raised {type(e).__name__}: {e}")
+                finally:
+                    tbuilder.Builder.cascade = orig_cascade
+                if will_tile:
+                    if content is not None and content[1] != (w, h):
+                        changed_input = True
+                    content = (mode_i, (w, h))
+                    complete = True
+                else:
                     reuse = True
-                exists = True
                 if not os.path.isfile(os.path.join(odir, "index_rel.wtml")):
                     raise Violation("wtml", f"{what}: no index_rel.wtml in {odir}")
                 compare_builder_with_wtml(bld, odir, what)
+                # the directory tree must be exactly what the WTML describes (no layers left over from earlier runs)
+                cm, (cw, ch) = content
+                if cm == "tan":
+                    pos, L = study_positions(cw, ch, True)
+                    check_wtml_vs_disk(odir, pos, what, L)
+                else:
+                    files = tile_files(odir)
+                    iset, _pl = parse_wtml(os.path.join(odir, "index_rel.wtml"))
+                    url = iset.attrib["Url"]
+                    norm = set(os.path.normpath(f) for f in files)
+                    pos = set(p for p in rp.all_positions(min(6, case["start"] + 3)) if os.path.normpath(expand(url, p)) in norm)
+                    check_wtml_vs_disk(odir, pos, what, case["start"])
     finally:
         if old_env is None:
             os.environ.pop("SLURM_NPROCS", None)
         else:
             os.environ["SLURM_NPROCS"] = old_env
-    return Outcome(classes=[case["mode"], "reuse-step" if reuse else "no-reuse", "default-outdir" if not case["explicit_out"] else "explicit-outdir"], nontrivial=reuse, count=len(case["steps"]))
+    cls = [case["mode"], "reuse-step" if reuse else "no-reuse", "default-outdir" if not case["explicit_out"] else "explicit-outdir"]
+    if changed_input:
+        cls.append("input-changed-between-calls")
+    if any(s_.startswith("interrupted") for s_ in case["steps"]):
+        cls.append("interrupted-run")
+    return Outcome(classes=cls, nontrivial=reuse or changed_input, count=len(case["steps"]))
 
 
 @st.composite
@@ -482,22 +530,36 @@ def strat_history(draw, tier):
     from .. import wcsgen
 
     mode = draw(st.sampled_from(["tan", "tan", "toast"]))
-    steps = ["fresh"] + [draw(st.sampled_from(["repeat", "repeat", "override", "parallel2"])) for _ in range(draw(st.integers(1, 4)))]
+    steps = [draw(st.sampled_from(["fresh", "fresh", "interrupted"]))]
+    for _ in range(draw(st.integers(1, 4))):
+        if steps[-1].startswith("interrupted"):
+            # what an interrupted run leaves behind can only be overridden
+            steps.append(draw(st.sampled_from(["override", "override", "interrupted-override"])))
+        else:
+            steps.append(draw(st.sampled_from(["repeat", "repeat", "override", "override", "parallel2", "interrupted-override"])))
+    if steps[-1].startswith("interrupted"):
+        steps.append("override")
     if mode == "tan":
         spec = draw(wcsgen.wcs_specs(projections=("TAN",), max_dec=80, min_scale_log=-4.0, max_scale_log=-3.0, allow_skew=False))
-        size = [draw(st.integers(20, 400)), draw(st.integers(20, 400))]
+        big = [draw(st.integers(260, 700)), draw(st.integers(260, 700))]
+        small = [draw(st.integers(20, 250)), draw(st.integers(20, 250))]
     else:
         spec = draw(wcsgen.wcs_specs(projections=("TAN",), max_dec=70, min_scale_log=-1.2, max_scale_log=-0.6, allow_skew=False))
-        size = [draw(st.integers(20, 80)), draw(st.integers(20, 80))]
+        big = [draw(st.integers(40, 80)), draw(st.integers(40, 80))]
+        small = [draw(st.integers(20, 39)), draw(st.integers(20, 39))]
     spec["crpix_mode"] = "half"
     spec["ratio"] = 1.0
-    # the tiling mode may change between calls on the same (explicit) output directory
+    # the tiling mode and the input image may change between calls on the same (explicit) output directory
     modes = [mode] + [draw(st.sampled_from([mode, mode, "tan", "toast"])) for _ in steps[1:]]
     if mode == "tan" and "toast" in modes:
-        # a TOAST call needs an image that is large on the sky to be worth sampling at level 1-2
         spec["scale"] = 0.2
-        size = [min(size[0], 80), min(size[1], 80)]
-    return {"mode": mode, "modes": modes, "steps": steps, "wcs": spec, "size": size, "start": draw(st.integers(1, 2)), "explicit_out": draw(st.booleans())}
+        big = [min(big[0], 80), min(big[1], 80)]
+        small = [min(small[0], 39), min(small[1], 39)]
+    sizes = [draw(st.sampled_from([big, big, small])) for _ in steps]
+    explicit = draw(st.booleans())
+    if not explicit:
+        modes = [mode] * len(steps)
+    return {"mode": mode, "modes": modes, "steps": steps, "sizes": sizes, "wcs": spec, "size": sizes[0], "start": draw(st.integers(1, 2)), "explicit_out": explicit}
 
 
 PARTS = [
@@ -505,7 +567,7 @@ PARTS = [
     Part("path_schemes_deep", exec_scheme, strategy=strat_scheme, examples={"quick": 300, "thorough": 20000}, shards={"quick": 4, "thorough": 16}, describe="generated positions to depth 20"),
     Part("workflows", exec_workflow, strategy=strat_workflow, examples={"quick": 96, "thorough": 3000}, shards={"quick": 16, "thorough": 16},
          budget_s={"quick": 80, "thorough": 1500}, describe="tile-study / tile-allsky (+cascade) CLI, tile_fits TAN and TOAST: WTML vs directory tree, returned Builder vs WTML"),
-    Part("tile_fits_histories", exec_history, strategy=strat_history, examples={"quick": 64, "thorough": 2000}, shards={"quick": 16, "thorough": 16},
+    Part("tile_fits_histories", exec_history, strategy=strat_history, examples={"quick": 160, "thorough": 3000}, shards={"quick": 16, "thorough": 16},
          budget_s={"quick": 80, "thorough": 1500}, describe="histories of tile_fits calls on one output directory (fresh / repeat / override / different parallel)"),
 ]
 PARTS[0].exhaustive_tiers = {"quick", "thorough"}
